@@ -388,7 +388,11 @@ func runUnit(id, tier string, s *spec, ts tierSpec, u unitSpec, seed int64, filt
 	all := prog.Harnesses(pkgPath, s.Prefix)
 	var names []string
 	for _, n := range all {
-		if filter != "" && !strings.Contains(n, filter) {
+		if strings.HasSuffix(filter, "$") {
+			if !strings.HasSuffix(n, strings.TrimSuffix(filter, "$")) {
+				continue
+			}
+		} else if filter != "" && !strings.Contains(n, filter) {
 			continue
 		}
 		skip := false
